@@ -18,7 +18,7 @@ def _register(opcode, shards, expect):
     def ob(v, _opcode=opcode):
         valueops.step(v, _opcode, "conform")
     ob.__doc__ = "One step of %s: stored values conform to the dtype, refusals are ValueError and change nothing, values are in normal form." % opcode
-    obligation("C05", opcode, shards=shards, budget={"quick": 300, "thorough": 900},
+    obligation("C05", opcode, shards=shards, budget={"quick": 700, "thorough": 2400},
                expect=expect, bounds=BOUNDS)(ob)
 
 
